@@ -15,6 +15,23 @@ some sequence of at most depth-1 operations reaches, i.e. all sequences of <= 4 
 (no KSK; a KSK whose tag equals the first / second pool key's tag with / without the REVOKE bit; a KSK describing the
 token key truthfully; with a wrong tag; a wrong DS; two entries for one label; an algorithm of the wrong family).
 
+KEY-TAG LATTICE (every run, both tiers).  The two reported tags and the collision verdict are judged against dnspython
+on keys where a plausible re-implementation goes wrong (each class has probability ~2^-9 among random keys, so they are
+handed out by the emulator on purpose): `generateKeyPair` serves, besides the ordinary fixture keys,
+  * 2048 / 3072 / 4096-bit public-only keys (keys.craft_modulus_with_acc; keygen and inventory never use the private
+    half) whose flags-257 accumulator `ac` has low word 0xFF7E..0xFF81, 0xFFFE, 0xFFFF, 0x0000, 0x0001 (setting the
+    REVOKE bit, +0x0080 in the first RDATA word, carries into the high word from 0xFF80 on: revoked tag = tag + 129,
+    not + 128), fold sum (ac & 0xFFFF) + (ac >> 16) = 0x10000 - 2..+2 for the plain and for the revoked form (second
+    carry is dropped: tags 65534, 65535, 0, 1, 2), plain tags 65407 / 65408 / 65535 (tag + 128 leaves 16 bits);
+  * the real 1024-bit keys of fixtures/special.json (`revcarry`, `carry`, `twins`) for `keygen --size 1024`.
+Each of them is generated (label free; on an empty token and next to an existing pair) under the configurations
+`next:<rel>`: one configured KSK whose key_tag is, relative to the TRUE (dnspython) tags of the key about to be handed
+out, plain / revoked / revoked-1 / revoked+1 / plain+128 / plain+129 / plain-1 / plain+1 (mod 2^16), or the revoked tag
+in a second entry.  Oracle: success => both reported tags and the DS are dnspython's and no configured tag equals either;
+the model comparison covers the converse (a refusal without a collision is a disagreement).  Two exploration layouts
+whose pool starts with such keys put them into operation sequences as well, and the `next:*` configurations are also
+evaluated for every keygen of the exploration.
+
 The REAL `kskm.tools.keymaster.keygen / keydel / inventory` run in-process against harness/p11emu.py after
 `init_pkcs11_modules(config, rw_session=True)` (as `main()` does); `builtins.input` and `time.sleep` are patched; a
 capturing logger object receives the messages.  Observed: the emulator's object table before and after, the return
@@ -22,8 +39,8 @@ value / exception class, the messages.
 
 PROPERTY ORACLE (from the property text, on the object tables; independent of the model):
   keygen    label carried by a public or private key object of a usable slot => failure and table unchanged;
-            otherwise a success adds exactly one public + one private RSA object with the label, 2048-bit modulus,
-            e = 65537, same key, nothing else changes; the reported tags / DS are dnspython's for the new key (flags 257
+            otherwise a success adds exactly one public + one private RSA object with the label, modulus of the requested
+            size (2048 unless stated), e = 65537, same key, nothing else changes; the reported tags / DS are dnspython's for the new key (flags 257
             and 385); a success is impossible when a configured KSK's tag equals either tag.
   keydelete without --force and without exactly "Yes": table unchanged; otherwise nothing is added, every removed object
             carries the label (class public/private), and a uniquely present labelled pair is gone afterwards.
@@ -82,17 +99,32 @@ WHAT_INVENTORY = "inventory does not list every key object of every slot exactly
 WHAT_BADKSK = "inventory verdict on a configured KSK is wrong"
 
 
+_REF: dict[int, list[Any]] = {}
+_PUB: dict[str, K.TestKey] = {}
+
+
 def key_of(ref: list[Any]) -> K.TestKey:
+    """["rsa", bits, e, i] / ["ec", curve, i]: fixtures/keys.json;  ["special", "carry"|"revcarry", i] / ["special", "twins", pair, i]:
+    fixtures/special.json;  ["pub", e, modulus hex]: public-only material carried by the state itself (replayable)."""
     if ref[0] == "rsa":
         return K.rsa_keys(ref[1], ref[2])[ref[3]]
-    return K.ec_keys(ref[1])[ref[2]]
-
-
-_REF: dict[int, list[Any]] = {}
+    if ref[0] == "special":
+        tk = K.special()[ref[1]]
+        for i in ref[2:]:
+            tk = tk[i]
+    elif ref[0] == "pub":
+        key = json.dumps(ref)
+        if key not in _PUB:
+            _PUB[key] = K.public_only_key(int(ref[2], 16), ref[1])
+        tk = _PUB[key]
+    else:
+        return K.ec_keys(ref[1])[ref[2]]
+    _REF.setdefault(id(tk), list(ref))
+    return tk
 
 
 def ref_of(tk: K.TestKey) -> list[Any]:
-    if not _REF:
+    if not any(r[0] in ("rsa", "ec") for r in _REF.values()):
         for k in K.all_keys():
             if k.kind == "rsa":
                 _REF[id(k)] = ["rsa", k.bits, k.e, K.rsa_keys(k.bits, k.e).index(k)]
@@ -111,12 +143,12 @@ def o_(cls: int, label: str, key: list[Any] | None, key_id: str = "", kt: int | 
 
 
 def pair(label: str, key: list[Any], key_id: str = "") -> list[dict[str, Any]]:
-    kt = CKK_RSA if key[0] == "rsa" else CKK_EC
+    kt = CKK_EC if key[0] == "ec" else CKK_RSA
     return [o_(CKO_PUBLIC, label, key, key_id, kt), o_(CKO_PRIVATE, label, key, key_id, kt)]
 
 
-def layout(name: str, slots: list[tuple[str, int, bool, list[dict[str, Any]]]]) -> dict[str, Any]:
-    """slots: (module path, slot id, login_ok, objects) in getSlotList order."""
+def layout(name: str, slots: list[tuple[str, int, bool, list[dict[str, Any]]]], pool: list[list[Any]] | None = None) -> dict[str, Any]:
+    """slots: (module path, slot id, login_ok, objects) in getSlotList order; pool: the keys generateKeyPair hands out."""
     mods: dict[str, Any] = {}
     for path, sid, ok, objs in slots:
         m = mods.setdefault(path, {"path": path, "slots": []})
@@ -125,7 +157,7 @@ def layout(name: str, slots: list[tuple[str, int, bool, list[dict[str, Any]]]]) 
             sl["objects"].append(dict(o, handle=sl["next"]))
             sl["next"] += 1
         m["slots"].append(sl)
-    return {"name": name, "mods": list(mods.values()), "pool": [list(p) for p in POOL]}
+    return {"name": name, "mods": list(mods.values()), "pool": [list(p) for p in (POOL if pool is None else pool)]}
 
 
 def layouts(tier: str, r: Any) -> list[dict[str, Any]]:
@@ -154,6 +186,14 @@ def layouts(tier: str, r: Any) -> list[dict[str, Any]]:
         layout("ecB+pairA", [(E0, 0, True, pair(LB, KEC) + pair(LA, KA))]),
         layout("privA-in-both-slots", [(E0, 0, True, [o_(CKO_PRIVATE, LA, KA)]), (E0, 1, True, [o_(CKO_PRIVATE, LA, KA2), o_(CKO_PUBLIC, LA, KA2)])]),
     ]
+    # pools that start with key-tag boundary keys (module docstring): the same exploration, other keys handed out
+    rl = lib.rng("C19:pool-layouts")
+    ff80 = crafted_ref(rl, 256, low=0xFF80)
+    ffff = crafted_ref(rl, 256, low=0xFFFF)
+    fold0 = crafted_ref(rl, 256, fold=0)
+    fold1 = crafted_ref(rl, 256, fold=1)
+    out.append(layout("empty,pool=low-word-0xFF80/fold-0x10001/0xFFFF", [(E0, 0, True, []), (E0, 1, True, [])], pool=[ff80, fold1, ffff] + POOL))
+    out.append(layout("pairA,pool=fold-0x10000/0xFF80", [(E0, 0, True, pair(LA, KA)), (E0, 1, True, [])], pool=[fold0, ff80] + POOL))
     if tier == "thorough":
         menu = [o_(CKO_PUBLIC, LA, KA), o_(CKO_PRIVATE, LA, KA), o_(CKO_PUBLIC, LB, KB), o_(CKO_PRIVATE, LB, KB), o_(CKO_PUBLIC, LA, KA, "01"), o_(CKO_PRIVATE, LA, KA, "01"), o_(CKO_SECRET, LB, None, "", CKK_AES), o_(CKO_PRIVATE, LB, KB, "02")]
         for i in range(30):
@@ -240,6 +280,109 @@ def table(state: dict[str, Any], usable_only: bool = False) -> list[tuple[Any, .
 
 
 # --------------------------------------------------------------------------------------
+# key-tag boundary keys for the pool
+# --------------------------------------------------------------------------------------
+
+
+def fold_sum(ac: int) -> int:
+    return (ac & 0xFFFF) + (ac >> 16)
+
+
+def crafted_ref(r: Any, n_len: int, *, low: int | None = None, fold: int | None = None, fold_revoked: int | None = None, tag: int | None = None) -> list[Any]:
+    """Public-only key (e = 65537) whose flags-257 / algorithm-8 accumulator `ac` has: low word == low | fold sum == 0x10000 + fold |
+    fold sum of the REVOKED form (ac + 0x80) == 0x10000 + fold_revoked | RFC key tag == tag."""
+    if low is not None:
+        pred = lambda ac: (ac & 0xFFFF) == low  # noqa: E731
+    elif fold is not None:
+        pred = lambda ac: fold_sum(ac) == 0x10000 + fold  # noqa: E731
+    elif fold_revoked is not None:
+        pred = lambda ac: fold_sum(ac + 0x80) == 0x10000 + fold_revoked  # noqa: E731
+    else:
+        pred = lambda ac: (ac + (ac >> 16)) & 0xFFFF == tag  # noqa: E731
+    return ["pub", 65537, hex(K.craft_modulus_with_acc(pred, 257, 8, r, n_len, 65537))]
+
+
+def lattice_keys(r: Any) -> list[tuple[str, list[Any], int]]:
+    """(class, key ref, size to request)."""
+    out: list[tuple[str, list[Any], int]] = []
+    for low in (0xFF7E, 0xFF7F, 0xFF80, 0xFF81, 0xFFFE, 0xFFFF, 0x0000, 0x0001):
+        out.append((f"low-word=0x{low:04X}", crafted_ref(r, 256, low=low), 2048))
+    for d in (-2, -1, 0, 1, 2):
+        out.append((f"fold-sum=0x10000{d:+d}", crafted_ref(r, 256, fold=d), 2048))
+        out.append((f"revoked-fold-sum=0x10000{d:+d}", crafted_ref(r, 256, fold_revoked=d), 2048))
+    for t in (65407, 65408, 65535):
+        out.append((f"tag={t}", crafted_ref(r, 256, tag=t), 2048))
+    for n_len in (384, 512):
+        out.append((f"low-word>=0xFF80:{8 * n_len}", crafted_ref(r, n_len, low=r.randrange(0xFF80, 0x10000)), 8 * n_len))
+        out.append((f"fold-carries:{8 * n_len}", crafted_ref(r, n_len, fold=r.randrange(0, 64)), 8 * n_len))
+    for _ in range(3):
+        out.append(("random-low-word>=0xFF80", crafted_ref(r, 256, low=r.randrange(0xFF80, 0x10000)), 2048))
+        out.append(("random-fold-carries", crafted_ref(r, 256, fold=r.randrange(0, 60)), 2048))
+    out.append(("ordinary", list(POOL[2]), 2048))
+    sp = K.special()
+    for kind in ("revcarry", "carry"):
+        for i in range(len(sp[kind])):
+            out.append((f"special:{kind}", ["special", kind, i], 1024))
+    for p in range(len(sp["twins"])):
+        for i in (0, 1):
+            out.append(("special:twins", ["special", "twins", p, i], 1024))
+    return out
+
+
+NEXT_RELS = ["plain", "revoked", "revoked-1", "revoked+1", "plain+128", "plain+129", "plain-1", "plain+1", "second-entry-revoked"]
+
+
+def next_pool_key(state: dict[str, Any], op: dict[str, Any] | None) -> K.TestKey | None:
+    """The key the emulator's generateKeyPair will hand out for this request (first pool key of the requested size, e = 65537)."""
+    size = 2048 if op is None else op.get("size", 2048)
+    for ref in state["pool"]:
+        tk = key_of(ref)
+        if tk.kind == "rsa" and tk.bits == size and tk.e == 65537:
+            return tk
+    return None
+
+
+def lattice(res: Result, pending: list[Any]) -> None:
+    """Every lattice key x every `next:*` configuration (+ no KSK) x {empty token, token holding another pair}."""
+    r = lib.rng("C19:keytag-lattice")
+    E0 = "emu0"
+    for cls, ref, size in lattice_keys(r):
+        tk = key_of(ref)
+        ac = K.tag_accumulator(K.dnskey_rdata(tk, 257, 8))
+        t257, t385, _ = rfc_tags(tk, 8)
+        res.bump("lattice:key:" + cls)
+        res.bump("lattice:revoked-tag=plain+" + str((t385 - t257) % 65536))
+        if fold_sum(ac) >= 0x10000:
+            res.bump("lattice:plain-fold-carries")
+        if fold_sum(ac + 0x80) >= 0x10000:
+            res.bump("lattice:revoked-fold-carries")
+        for lname, slots in (("empty", [(E0, 0, True, []), (E0, 1, True, [])]), ("pairB", [(E0, 0, True, pair(LB, KB)), (E0, 1, True, [])])):
+            state = layout(f"lattice:{lname}:{cls}", slots, pool=[ref] + POOL[:2])
+            op: dict[str, Any] = {"op": "keygen", "label": LA}
+            if size != 2048:
+                op["size"] = size
+            for cfgname in ["empty"] + ["next:" + x for x in NEXT_RELS]:
+                ctx = {"layout": state["name"], "initial": {"mods": state["mods"], "pool": state["pool"], "name": state["name"]}, "history": [], "op": op, "config": cfgname}
+                if cfgname.startswith("next:") and next_tag(cfgname, state, op) is None:
+                    res.bump("lattice:configured-tag-would-be-0:not-configurable")
+                    continue
+                run = run_op(state, cfgname, op)
+                res.count({"s": state_key(state), "op": op, "cfg": cfgname})
+                res.bump("op:keygen")
+                res.bump("lattice:" + cfgname + ":" + ("generated" if "ok" in run["impl"] else "refused"))
+                vkey = judge(state, op, run, res, ctx)
+                pending.append((op, run, ctx, vkey))
+                if cfgname == "empty" and "ok" not in run["impl"]:
+                    # no configured KSK, label free, and still no success: recorded, not judged (the property speaks of successful generations)
+                    res.bump(f"boundary:lattice-keygen-fails-without-any-configured-KSK:tag={t257}:{run['impl'].get('error')}")
+                    if lname == "empty":
+                        res.notes.append(
+                            f"boundary: keygen of a key whose RFC 4034 key tag is {t257} (revoked {t385}) with NO configured KSK fails with {run['impl']} after the pair was created on the token "
+                            f"(objects added: {len(table(run['after'])) - len(table(state))}); last messages: {[m[:90] for _l, m in run['messages']][-2:]}; the model agrees (DNSRecords.from_key builds a KSKKey, whose key_tag must be 1..65535)"
+                        )
+
+
+# --------------------------------------------------------------------------------------
 # configurations
 # --------------------------------------------------------------------------------------
 
@@ -262,9 +405,24 @@ def rfc_tags(tk: K.TestKey, alg: int, prefixed_ec: bool = True) -> tuple[int, in
 _CFG: dict[str, Any] = {}
 
 
-def config(name: str, state: dict[str, Any]) -> Any:
+def next_tag(name: str, state: dict[str, Any], op: dict[str, Any] | None) -> int | None:
+    """`next:<rel>`: the configured key tag, relative to the TRUE tags (dnspython) of the key about to be generated."""
+    tk = next_pool_key(state, op)
+    if tk is None:
+        return None
+    t257, t385, _ = rfc_tags(tk, 8)
+    m = re.fullmatch(r"next:(plain|revoked|second-entry-revoked)([+-]\d+)?", name)
+    if m is None:
+        raise KeyError(name)
+    base = t257 if m.group(1) == "plain" else t385
+    tag = (base + int(m.group(2) or 0)) % 65536
+    return tag or None  # the configuration schema has key_tag >= 1: a KSK with key tag 0 cannot be configured with its tag
+
+
+def config(name: str, state: dict[str, Any], op: dict[str, Any] | None = None) -> Any:
     hsm = {f"hsm{i}": {"module": m["path"], "pin": "1234"} for i, m in enumerate(state["mods"])}
-    key = name + "|" + json.dumps(sorted(hsm))
+    dyn = next_tag(name, state, op) if name.startswith("next:") else None
+    key = name + f"={dyn}|" + json.dumps(sorted(hsm))
     if key in _CFG:
         return _CFG[key]
     ka = key_of(KA)
@@ -312,6 +470,13 @@ def config(name: str, state: dict[str, Any]) -> Any:
         ksk = {"kz": ent("Kzzz", other, tag=p0[1])}
     elif name == "collide-second":
         ksk = {"ka": ent(LA, ka, tag=tagA, ds=dsA), "kz": ent("Kzzz", other, tag=p1[1])}
+    elif name.startswith("next:"):
+        if dyn is None:
+            ksk = {}  # nothing will be handed out (no tag to relate to), or the tag would be 0 (not configurable)
+        elif name == "next:second-entry-revoked":
+            ksk = {"ka": ent(LA, ka, tag=tagA, ds=dsA), "kz": ent("Kzzz", other, tag=dyn)}
+        else:
+            ksk = {"kz": ent("Kzzz", other, tag=dyn)}
     else:
         raise KeyError(name)
     cfg = C.make_config(hsm, ksk, {}, ksk_policy={"ttl": 172800})
@@ -323,7 +488,7 @@ def km_cfg_j(cfg: Any) -> dict[str, Any]:
     return {"ksks": [{"key": C.ksk_j(k), "description": k.description, "algName": k.algorithm.name} for k in cfg.ksk_keys.values()], "ttl": cfg.ksk_policy.ttl}
 
 
-KEYGEN_CFGS = ["empty", "collide257", "collide385", "collide-second", "A-good"]
+KEYGEN_CFGS = ["empty", "collide257", "collide385", "collide-second", "A-good"] + ["next:" + x for x in NEXT_RELS]
 INVENTORY_CFGS = ["empty", "A-good", "A-tagonly", "A-none", "A-badtag", "A-badds", "A-good-then-bad", "A-bad-then-good", "A-ec-alg", "B-pool0-good"]
 
 # --------------------------------------------------------------------------------------
@@ -378,7 +543,7 @@ def run_op(state: dict[str, Any], cfgname: str, op: dict[str, Any]) -> dict[str,
     from kskm.misc import hsm as H
 
     world = mk_world(state)
-    cfg = config(cfgname, state)
+    cfg = config(cfgname, state, op)
     before = store_j(world)
     logger = CapLogger()
     prompts: list[str] = []
@@ -479,7 +644,7 @@ def judge_keygen(state: dict[str, Any], op: dict[str, Any], run: dict[str, Any],
     good = len(added) == 2 and not removed and {t[3] for t in added} == {CKO_PUBLIC, CKO_PRIVATE} and all(t[4] == label and t[7] == CKK_RSA for t in added) and added[0][6] == added[1][6]
     if good:
         tk = key_of(json.loads(added[0][6]))
-        good = tk.kind == "rsa" and tk.e == 65537 and tk.n.bit_length() == 2048 and added[0][:2] == added[1][:2]
+        good = tk.kind == "rsa" and tk.e == 65537 and tk.n.bit_length() == op.get("size", 2048) and added[0][:2] == added[1][:2]
     if not good or tk is None:
         res.violation(WHAT_KEYGEN_PAIR, ctx, key="keygen-pair", added=added, removed=removed)
         return "keygen-pair"
@@ -822,12 +987,16 @@ def run(tier: str, driver_ok: bool) -> Result:
     depth = 4 if tier == "quick" else 5
     res.rule = (
         f"every operation of {{keygen A|B, keydelete A|B x 11 answers/force, inventory +-dns, ECDSA / size-less keygen}} in every distinct token state reachable by <= {depth - 1} "
-        f"state-changing operations from 22 (quick) / 52 (thorough) initial layouts, i.e. all sequences of <= {depth} operations; keygen x 5 and inventory x 10 configurations; "
+        f"state-changing operations from 24 (quick) / 54 (thorough) initial layouts (two of them with key-tag boundary keys first in the generateKeyPair pool), i.e. all sequences of <= {depth} operations; "
+        f"keygen x {len(KEYGEN_CFGS)} configurations (no KSK, fixed collisions, and next:* = a KSK whose tag is plain / revoked / revoked+-1 / plain+128 / plain+129 / plain+-1 of the TRUE tags of the key about to be generated) and inventory x 10 configurations; "
+        "KEY-TAG LATTICE in every run: keygen of crafted 2048/3072/4096-bit public-only keys (accumulator low word 0xFF7E..0xFF81/0xFFFE/0xFFFF/0/1, fold sum 0x10000-2..+2 plain and revoked, tags 65407/65408/65535) "
+        "and of the real 1024-bit fixtures/special.json revcarry/carry/twins keys, each under every next:* configuration on two token layouts (counters lattice:*); "
         "non-trivial = distinct (token state, operation, configuration)"
     )
     r = lib.rng("C19")
     pending: list[Any] = []
     corpus_first(res, pending)
+    lattice(res, pending)
     seen_global: set[str] = set()
     budget = [60000 if tier == "quick" else 10**9]
     for lay in layouts(tier, r):
